@@ -2,7 +2,7 @@
 From Coq Require Import ZArith List Bool Lia FinFun.
 Require Import WV.model.C08Table.
 Import ListNotations.
-Open Scope Z_scope.
+Local Open Scope Z_scope.
 
 (* ------------------------------------------------------------------ small tools *)
 Lemma zmem_In x l : zmem x l = true <-> In x l.
@@ -346,3 +346,37 @@ Proof.
   unfold rect, gx, cs, rs. simpl. lia.
 Qed.
 
+
+(* rowspan clipping, row by row: `left` = rows from this one to the end of the group *)
+Lemma spans_ok_nth rows outs :
+  spans_ok rows outs ->
+  forall y row orow, nth_error rows y = Some row -> nth_error outs y = Some orow ->
+  Forall2 (fun (i : cellin) (o : cellout) => cs o = fst i /\ rs o = clip (snd i) (Z.of_nat (length rows) - Z.of_nat y)) row orow.
+Proof.
+  revert outs. induction rows as [|r0 rr IH]; intros outs H y row orow Hr Ho; [destruct y; discriminate|].
+  destruct outs as [|o0 ro]; [destruct H|]. cbn [spans_ok] in H. destruct H as [H0 Hrest]. destruct y as [|y].
+  - simpl in Hr, Ho. injection Hr as <-. injection Ho as <-. rewrite Z.sub_0_r. exact H0.
+  - simpl in Hr, Ho. specialize (IH ro Hrest y row orow Hr Ho).
+    replace (Z.of_nat (length (r0 :: rr)) - Z.of_nat (S y)) with (Z.of_nat (length rr) - Z.of_nat y) by (simpl length; lia). exact IH.
+Qed.
+
+Lemma Forall2_imp {A B} (P Q : A -> B -> Prop) l l' : (forall a b, P a b -> Q a b) -> Forall2 P l l' -> Forall2 Q l l'.
+Proof. intros H. induction 1; constructor; auto. Qed.
+
+Lemma rowspan0_to_group_end gw rows outs w :
+  do_group gw rows = Some (outs, w) ->
+  forall y row orow, nth_error rows y = Some row -> nth_error outs y = Some orow ->
+  Forall2 (fun (i : cellin) (o : cellout) =>
+             cs o = fst i /\
+             (snd i = 0 -> rs o = Z.of_nat (length rows) - Z.of_nat y) /\
+             (1 <= snd i -> rs o = Z.min (snd i) (Z.of_nat (length rows) - Z.of_nat y))) row orow.
+Proof.
+  intros H y row orow Hr Ho. destruct (rowspan_clipped_to_group _ _ _ _ H) as [Hs _].
+  pose proof (spans_ok_nth rows outs Hs y row orow Hr Ho) as F. eapply Forall2_imp; [|exact F].
+  intros i o [H1 H2]. split; [exact H1|]. unfold clip in H2. split; intros Hi.
+  - rewrite Hi in H2. exact H2.
+  - destruct (snd i =? 0) eqn:E; [apply Z.eqb_eq in E; lia|exact H2].
+Qed.
+
+Example rowspan0_ex : do_group 0 [[(1, 0); (1, 9)]; [(1, 1)]; [(1, 1)]] = Some ([[(0, 1, 3); (1, 1, 3)]; [(2, 1, 1)]; [(2, 1, 1)]], 3).
+Proof. reflexivity. Qed.
